@@ -132,7 +132,7 @@ def run(tier, seed, replay=None, target="native", pid="C01"):
         v = o[0].get("verdict")
         return o[0]["status"] == "ran" and v is not None and not v["ok"] and v["halt"] != "fuel"
     for n, (ob, kind) in enumerate(pending):
-        small = progen.reduce(ob["prog"], still_bad, budget=80) if n < 6 else ob["prog"]
+        small = progen.reduce(ob["prog"], still_bad, budget=40) if n < 3 else ob["prog"]
         o = semrun.observe(env, [(small, ob["name"])], target, workers=1)
         semrun.judge(env, o)
         v = o[0]["verdict"] if o[0]["status"] == "ran" and o[0].get("verdict") else ob["verdict"]
